@@ -400,7 +400,7 @@ fn other_cases(tier: Tier, ellipsoids: &[String]) -> Vec<Case> {
         ("full, ellps", "molodensky ellps_0=intl ellps_1=GRS80 dx=-87 dy=-96 dz=-120"),
         ("abridged, ellps", "molodensky ellps_0=intl ellps_1=GRS80 dx=-87 dy=-96 dz=-120 abridged"),
         ("full, da df", "molodensky ellps_0=intl dx=-87 dy=-96 dz=-120 da=-251 df=-0.0000141927"),
-        ("full, small shift", "molodensky ellps_0=intl ellps_1=GRS80 dx=-8.7 dy=-9.6 dz=-12"),
+        ("full, small shift", "molodensky ellps_0=GRS80 ellps_1=WGS84 dx=-8.7 dy=-9.6 dz=-12"),
         ("abridged, small shift", "molodensky ellps_0=GRS80 ellps_1=WGS84 dx=-8.7 dy=-9.6 dz=-12 abridged"),
     ] {
         let g: Vec<C4> = geo.iter().filter(|t| t[1].abs() < 85f64.to_radians()).copied().collect();
